@@ -85,7 +85,7 @@ ASSUMPTIONS = [
     "fdepsd rows in which a cycle amplitude lies within 1e-12 (relative) of a bin level are skipped and counted in the Rat-model "
     "stream (the Float worker stream needs no such skip: it performs the same IEEE operations)",
     "scalar `bins` >= 1; an explicit `bins` vector of length 1 is a scalar by the code's own rule",
-    "fdepsd formulas: f*T0 > 1 for resp='absacce' (ln N0 > 0 and Dt_b > 0: proved test_damage_positive), f*T0 > 0 for 'pvelo'; "
+    "fdepsd formulas: f*T0 > 1 for resp='absacce' (ln N0 > 0 and Dt_b > 0: proved test_damage_positive), f*T0 > 0 and != 1 for 'pvelo'; "
     "Q > 0, f > 0; scaling factor c > 0",
 ]
 PARTIAL = (
